@@ -16,4 +16,16 @@ CHECKS = {
         text="Every ordered table of <=2 (thorough 3) patterns from an 18-pattern list (all convertor types, literals with regex metacharacters) x every path of <=2 (3) segments from a 25-value segment list incl. near-misses, trailing newline, Unicode digits and 5000-digit numbers, through both Router classes and the gateway drivers; endpoint identity and typed parameters compared with a hand-written matcher; to_string round trip for every listed denoted value.",
         note="pattern shapes with a unique split only; finite pattern and segment lists; reference language predicates written by hand from the property text",
     ),
+    "C09": dict(
+        engine="explore", level="exploration", design_ref="DESIGN.md §3 C09",
+        technique="bounded exhaustive enumeration of mount/host tables x requests against a prefix-rule reference, with request histories per app instance",
+        text="Every sequence of <=3 mount entries over 5 overlapping prefixes, nesting to depth 3, x 14 paths x 2 initial root paths, and every sequence of <=3 host patterns x 13 Host values, on both interfaces through the gateway drivers; each app instance serves the whole request list forward and backward so that state leaking between requests is seen; leaf observes (entry, root path, path).",
+        note="finite prefix/path/host lists; host patterns judged by hand-written predicates",
+    ),
+    "C17": dict(
+        engine="explore", level="model_checking", design_ref="DESIGN.md §3 C17",
+        technique="explicit-state BFS over operation histories of the real mapping with state merging, step-wise comparison with a list-of-pairs model",
+        text="Breadth-first search over all operation sequences up to depth 4 (thorough 6) over 37 operations (2 keys x 3 values incl. the empty string) from 5 initial pair lists; every transition replays the history on a fresh real MutableMultiMapping and compares the operation result and eleven views with a list-of-pairs reference; every reachable pair list is loaded into the immutable classes; query-string round trip for all lists of <=2 pairs over an 8-symbol alphabet.",
+        note="states are merged on the public views (multi_items, key order); depth bound; small key/value alphabet",
+    ),
 }
